@@ -341,14 +341,12 @@ pub uninterp spec fn is_final_codec(f: StreamFilter) -> bool;
 fn hoist_image_split(filters: &[StreamFilter]) -> (r: usize)
     ensures r <= filters@.len(), r == image_split(filters@)
 {
-    filters.iter().rposition(|f| match f {
-        StreamFilter::ASCIIHexDecode => false,
-        StreamFilter::ASCII85Decode => false,
-        StreamFilter::LZWDecode(_) => false,
-        StreamFilter::RunLengthDecode => false,
-        StreamFilter::Crypt => true,
-        _ => true
-    }).unwrap_or(filters.len())
+    // (source text since /repo f565930; before that an rposition over the same list)
+    match filters.last() {
+        Some(StreamFilter::DCTDecode(_)) | Some(StreamFilter::CCITTFaxDecode(_)) | Some(StreamFilter::JPXDecode) |
+        Some(StreamFilter::FlateDecode(_)) | Some(StreamFilter::JBIG2Decode(_)) => filters.len() - 1,
+        _ => filters.len()
+    }
 }
 #[verifier::external_body]
 fn hoist_split_at<'a>(s: &'a [StreamFilter], mid: usize) -> (r: (&'a [StreamFilter], &'a [StreamFilter]))
